@@ -359,12 +359,16 @@ class MPCLinear(Sub):
 
 
 class SmoothNLS(pp.module.NLS):
-    def __init__(self, W1, W2, Bm, a):
+    def __init__(self, W1, W2, Bm, a, tv=0.0, dvec=None):
         super().__init__()
-        self.W1, self.W2, self.Bm, self.a = W1, W2, Bm, a
+        self.W1, self.W2, self.Bm, self.a, self.tv, self.dvec = W1, W2, Bm, a, tv, dvec
 
     def state_transition(self, state, input, t=None):
-        return pp.bmv(self.W1, state) + self.a * torch.sin(pp.bmv(self.W2, state)) + pp.bmv(self.Bm, input)
+        out = pp.bmv(self.W1, state) + self.a * torch.sin(pp.bmv(self.W2, state)) + pp.bmv(self.Bm, input)
+        if self.tv:
+            # explicit time dependence f(x, u, t) (an NLS receives the system time): a drift tv * sin(0.7 t) along a fixed direction
+            out = out + self.tv * torch.sin(0.7 * torch.as_tensor(t, dtype=state.dtype)) * self.dvec
+        return out
 
     def observation(self, state, input, t=None):
         return state
@@ -379,7 +383,9 @@ class MPCNonlinear(Sub):
         # a = 0 is a LINEAR system (kept as one case in eight: MPC must not break on the degenerate member of the family)
         return st.fixed_dictionaries({"seed": st.integers(0, 10 ** 7), "ns": st.integers(1, 6), "nc": st.integers(1, 6), "T": Ts,
                                       "steps": st.integers(1, 6), "a": st.sampled_from((0.0, 0.1, 0.1, 0.3, 0.3, 0.5, 0.5, 0.5)),
-                                      "tvq": st.booleans(), "condq": st.sampled_from((1e2, 1e2, 1e4, 1e6))})
+                                      "tvq": st.booleans(), "condq": st.sampled_from((1e2, 1e2, 1e4, 1e6)),
+                                      # explicit time dependence of f (an NLS is handed the system time): half of the systems
+                                      "tv": st.sampled_from((0.0, 0.0, 0.3, 1.0))})
 
     def oracle(self, case, rec):
         ns, nc, T = case["ns"], case["nc"], case["T"]
@@ -387,7 +393,9 @@ class MPCNonlinear(Sub):
         W1 = rs.randn(ns, ns); W1 = W1 / max(abs(np.linalg.eigvals(W1))) * rs.uniform(0.3, 1.0)
         W2, Bm, a = rs.randn(ns, ns), rs.randn(ns, nc), case["a"]
         Tn = torch.tensor
-        sysm = SmoothNLS(Tn(W1), Tn(W2), Tn(Bm), a)
+        tv = float(case.get("tv", 0.0))
+        dvec = np.random.RandomState(case["seed"] + 3).randn(ns)
+        sysm = SmoothNLS(Tn(W1), Tn(W2), Tn(Bm), a, tv=tv, dvec=Tn(dvec))
         nsc = ns + nc
         hw = math.log10(case.get("condq", 1e2)) / 2          # eigenvalues of Q_t in 10^[-hw, hw]
 
@@ -409,10 +417,11 @@ class MPCNonlinear(Sub):
                   "Q_time_varying" if case.get("tvq", False) else "Q_constant", "dims>4" if max(ns, nc) > 4 else "dims<=4")
         if not rec.check(bool(np.all(np.isfinite(x)) and np.all(np.isfinite(u))), "mpcnl:nonfinite", "MPC returned non-finite trajectory"):
             return
-        f = lambda xx, uu: W1 @ xx + a * np.sin(W2 @ xx) + Bm @ uu
+        f = lambda xx, uu, tt: W1 @ xx + a * np.sin(W2 @ xx) + Bm @ uu + tv * math.sin(0.7 * tt) * dvec
+        rec.label("f:time_dependent" if tv else "f:autonomous")
         rec.check(np.array_equal(x[0], x0[0]), "mpcnl:x0", "x[0] differs from x_init")
         scale = max(1.0, float(np.abs(x).max()))
-        ed = max(float(np.abs(x[t + 1] - f(x[t], u[t])).max()) for t in range(T))
+        ed = max(float(np.abs(x[t + 1] - f(x[t], u[t], t)).max()) for t in range(T))
         rec.notes["mpcnl:dyn"] = max(rec.notes.get("mpcnl:dyn", 0), ed / (1e-9 * scale))
         rec.check(ed <= 1e-9 * scale, "mpcnl:dynamics", lambda: "returned trajectory violates the nonlinear dynamics by %.3g" % ed)
         # cost along the returned trajectory: same conditioning argument as in check_solution
